@@ -127,7 +127,7 @@ def attach_void_actions(g, rnd):
         for n in r.walk():
             if n.op in ("one", "string", "any", "range", "not_one", "slot") and rnd.random() < 0.4:
                 g.actions.setdefault(gen.ctype(n), 1 + rnd.randrange(2))
-            elif n.op in ("seq", "sor", "star", "plus", "opt") and rnd.random() < 0.15:
+            elif n.op in ("seq", "sor", "star", "plus", "opt") and rnd.random() < 0.15:  # never "if_then": its chains are aliases of internal types
                 g.actions.setdefault(gen.ctype(n), 1 + rnd.randrange(2))
 
 
@@ -416,3 +416,174 @@ spec("C02", plan=plan_c02,
           "false under required after the cursor had moved during the attempt (seen through nested frames or the guarded bump hook); "
           "distinct = (rule or grammar, input, script).",
      assumptions=COMMON_ASSUME + ["the guarded bump hook (TAO_PEGTL_VERIF) is only used to count non-trivial cases, not to decide"])
+
+# ---------------------------------------------------------------------------- C04 / C05 / C08
+SAFE_ACTION_OPS = CORE_OPS + ["enable", "disable", "list", "pad", "pad_opt", "if_must", "opt_must", "star_must", "list_must", "must",
+                              "rep", "rep_min", "rep_opt", "partial", "star_partial", "separated_seq"]
+AMBIGUOUS_OPS = ["if_then_else", "until", "strict", "star_strict", "rep_max", "rep_min_max", "rematch", "minus", "if_must_else", "list_tail"]
+RAISE_OPS = ["must", "if_must", "if_must_else", "opt_must", "star_must", "list_must", "raise", "raise_message"] + list(gen.CATCH_KIND)
+
+
+def ambiguous_types(g):
+    """Types that occur in a position where the documented expansion evaluates the sub-rule under not_at<> (actions
+    disabled) while the implementation evaluates it with the incoming apply mode: condition of if_then_else /
+    if_must_else / until / if_then, first rule of strict, rules of rep_max / rep_min_max / rematch / minus.
+    Actions that influence matching (veto, throw) must not be attached to them (DESIGN 1.8)."""
+    amb = set()
+    rules_seen = set()
+
+    def mark(n):
+        if n.op == "ref":
+            i = n.p["i"]
+            amb.add("R%d" % i)
+            if i not in rules_seen:
+                rules_seen.add(i)
+                mark(g.rules[i])
+            return
+        amb.add(gen.ctype(n))
+        for k in n.kids:
+            mark(k)
+
+    def scan(n):
+        o = n.op
+        if o in ("if_then_else", "if_must_else", "until", "strict"):
+            mark(n.kids[0])
+        elif o in ("rep_max", "rep_min_max", "rematch", "minus"):
+            for k in n.kids:
+                mark(k)
+        elif o == "if_then":
+            it = iter(n.kids)
+            for cnt in n.p["thens"]:
+                mark(next(it))
+                for _ in range(cnt):
+                    next(it)
+        for k in n.kids:
+            scan(k)
+    for r in g.rules:
+        scan(r)
+    return amb
+
+
+def attach_actions(g, rnd, kinds, density=0.35, influence=False):
+    """influence: the grammar will run with vetoing or throwing scripts -> keep ambiguous positions free of actions
+    (throwing) resp. of bool actions (veto only)."""
+    amb = ambiguous_types(g) if influence else set()
+
+    def pick(ct):
+        if ct in amb:
+            return None
+        return rnd.choice(kinds)
+    for i in range(len(g.rules)):
+        if rnd.random() < 0.8:
+            k = pick("R%d" % i)
+            if k:
+                g.actions["R%d" % i] = k
+    for r in g.rules:
+        for n in r.walk():
+            if n.op in ("ref", "raise", "raise_message", "if_then") or n.op in gen.CATCH_KIND:
+                continue
+            if rnd.random() < (0.5 if n.op == "slot" else density):
+                ct = gen.ctype(n)
+                k = pick(ct)
+                if k:
+                    g.actions.setdefault(ct, k)
+
+
+def gen_grammars(n, seed, ops, depth, rnd, kinds, veto=False, throw=False, errmsg=False, atoms=None):
+    G = gen.Gen(seed, ops=ops, max_depth=depth, atoms=atoms)
+    out = []
+    for _ in range(n):
+        g, rej = G.grammar()
+        attach_actions(g, rnd, kinds, influence=veto or throw)
+        g.veto = veto
+        g.throw = throw
+        if errmsg:
+            for i in range(len(g.rules)):
+                if rnd.random() < 0.4:
+                    g.errmsg[i] = "custom error %d" % i
+        out.append(g)
+    return out
+
+
+def action_corpus(pid, tier, seed, workdir):
+    """Corpus shared by C04 / C05 / C08 (run with different --prop, hence different oracles and counters)."""
+    import random
+    rnd = random.Random(seed * 17 + 7)
+    q = tier == "quick"
+    runs = []
+    # (1) vetoing bool actions at sound positions
+    g1 = gen_grammars(70 if q else 700, seed * 1000 + 31, SAFE_ACTION_OPS, 3 if q else 4, rnd, [1, 2, 3, 4], veto=True)
+    # (2) void-only logging actions anywhere, all operators
+    g2 = gen_grammars(50 if q else 500, seed * 1000 + 37, CORE_OPS + CONV_OPS + ["enable", "disable"], 3 if q else 4, rnd, [1, 2])
+    # (3) global failure: must family, raise, try_catch, throwing actions, custom messages
+    g3 = gen_grammars(70 if q else 700, seed * 1000 + 41, CORE_OPS + RAISE_OPS * 2 + ["enable", "disable", "list", "pad"], 3 if q else 4, rnd,
+                      [1, 2, 3, 4], veto=True, throw=True, errmsg=True)
+    # (4) slot shapes: raising / throwing leaves under every combinator incl. try_catch
+    shapes = in_contexts(conv_shapes(bounds=(0, 1, 2)) + try_shapes(), contexts=("bare", "seq"))
+    shapes += slot_shapes(CORE_OPS, CORE_OPS, contexts=("bare",))
+    for g in shapes:
+        attach_actions(g, rnd, [1, 2], density=0.3)
+    # nested try blocks around must over slots
+    N = gen.N
+    S = lambda k: N("slot", k=k)
+    extra = []
+    for o in gen.CATCH_KIND:
+        extra.append(N(o, [N("must", [S(0)])]))
+        extra.append(N("sor", [N(o, [N("seq", [S(0), N("must", [S(1)])])]), S(2)]))
+        extra.append(N("star", [N(o, [N("if_must", [S(0), S(1)])])]))
+        extra.append(N("at", [N(o, [N("must", [S(0), S(1)])])]))
+        extra.append(N("not_at", [N(o, [N("seq", [S(0), N("raise", [S(1)])])])]))
+    shapes += in_contexts(extra, contexts=("bare", "seq"))
+    per = 10 if q else 25
+    if pid == "C08":
+        for tag, gs_, n_ in (("h1", g1, per), ("h2", g2, per), ("h3", g3, per), ("h4", shapes, 16)):
+            for t in write_tus(workdir, tag, gs_, n_, 4, C09_INCLUDES):
+                runs.append(Run(t, args=["--prop", pid] + (["--rc", "400" if q else "5000"] if tag == "h4" else [])))
+        return runs
+    for t in write_tus(workdir, "a1", g1, per, 3, C09_INCLUDES):
+        runs.append(Run(t, args=["--prop", pid]))
+    for t in write_tus(workdir, "a2", g2, per, 2, C09_INCLUDES):
+        runs.append(Run(t, args=["--prop", pid]))
+    for t in write_tus(workdir, "a3", g3, per, 3, C09_INCLUDES):
+        runs.append(Run(t, args=["--prop", pid]))
+    for t in write_tus(workdir, "a4", shapes, 16, 2, C09_INCLUDES):
+        runs.append(Run(t, args=["--prop", pid, "--rc", "400" if q else "5000"]))
+    return runs
+
+
+def plan_actions(pid):
+    def plan(tier, seed, workdir, case):
+        if case is not None:
+            return replay_corpus_plan(pid, workdir, case, cfgset=4 if pid == "C08" else 3, extra_includes=C09_INCLUDES)
+        return action_corpus(pid, tier, seed, workdir)
+    return plan
+
+
+ACTION_CORPUS_TEXT = ("corpus: (1) random grammars over core operators, enable/disable and the convenience rules whose documented expansion "
+                      "does not move a sub-rule under not_at, with void/bool apply/apply0 actions on named rules and sub-expressions, bool "
+                      "actions vetoing by a deterministic predicate of (rule, begin, end, salt); (2) void logging actions anywhere over all "
+                      "operators; (3) must/if_must/opt_must/star_must/list_must/raise/raise_message/all eight try_catch rules with actions "
+                      "that throw std- and non-std exceptions carrying a serial number, custom error_message members; (4) every combinator "
+                      "over slots that raise or throw, try blocks nested in predicates, repetitions and choices.  Inputs: all strings to "
+                      "length 5/7 (shortest first) plus rapidcheck strings, scripts and salts; 3-5 configurations per case. ")
+
+spec("C04", plan=plan_actions("C04"),
+     rule=ACTION_CORPUS_TEXT + "Oracle: the transactional log of action invocations after a successful run equals the reference model's "
+          "derivation (same rules, spans, order of completion); for EVERY invocation: begin = start of that rule's attempt, end = cursor, "
+          "the formalism matches exactly that span there, apply mode is action, no enclosing look-ahead; a veto yields local failure with "
+          "the cursor restored.  Non-trivial: a run in which action invocations were discarded by backtracking or a veto occurred.",
+     assumptions=COMMON_ASSUME + ["vetoing/throwing actions are placed only where the documented expansion and the implementation agree on the apply mode (DESIGN 1.8)"])
+spec("C05", plan=plan_actions("C05"),
+     rule=ACTION_CORPUS_TEXT + "Oracle: the model determines the first global failure in evaluation order: exception kind, message() "
+          "(default 'parse error matching '+demangle, custom error_message, raise_message text), nestedness, byte within [start of the "
+          "blamed attempt, end of input] with line/column consistent with that byte, what() == source:line:column: message; foreign "
+          "exceptions arrive with their serial number; try_catch_* convert exactly the named types.  Non-trivial: runs that end in or "
+          "internally convert a global failure.",
+     assumptions=COMMON_ASSUME + ["must_if controls are checked by targets/c05_must_if.cpp when present"])
+spec("C08", plan=plan_actions("C08"),
+     rule=ACTION_CORPUS_TEXT + "Oracle: hook protocol per rule attempt, evaluated from the frame stack of the match() wrapper: start once, "
+          "then at most one apply/apply0 after all nested attempts are closed, then exactly one of success/failure/unwind for the same "
+          "rule; success iff the attempt returned true, failure iff false, unwind iff an exception left it (controls without unwind(): "
+          "nothing); no hooks for rules with disabled control; raise only inside must/raise rules.  Non-trivial: runs with an unwind or "
+          "a vetoed action.",
+     assumptions=COMMON_ASSUME)
